@@ -302,4 +302,9 @@ def record(optic, label, lens_id):
                 out.setdefault("notes", []).append("afocal: no axial focus")
         else:
             evs.append(dict(base, kind="stopx", k=stop, X=[dy(float(v)) for v in R["x"][stop]], S=dy(Sy)))
+            # "the zero-pupil ray of each field tends to the centre of the aperture stop": the height at the
+            # stop against 0 itself - not against the library's own paraxial chief ray there, which comes out
+            # of the same entrance-pupil computation the real ray was aimed with
+            evs.append(dict(base, kind="height", k=stop, variant="stop_centre", Y=[dy(float(v)) for v in R["y"][stop]],
+                            yp=dy(0.0), up=dy(float(up[stop])), S=dy(Sy)))
     return out
